@@ -2,6 +2,9 @@ package main
 
 import (
 	"fmt"
+	"go/constant"
+	"go/token"
+	"go/types"
 	"sort"
 	"strings"
 	"sync"
@@ -53,6 +56,9 @@ func propC13(c *Ctx, r *Report) {
 	winnerTable(c, r, e, "C13/winners-gate-execution")
 	// the averages that decide "unavailable" are those of the last rated height (shared with C07-R3/C09)
 	ruleHoldingWindow(c, r, "C13/averages-height")
+	ruleAverageAvailability(c, r, "C13/average-availability")
+	// a forbidden batch has no effect: it is not handed to the PEG settlement either (shared with C03/C16)
+	ruleRejectedNotCollected(c, r, e, "C13/rejected-not-collected")
 	tick, _ := c.tickers()
 	names := map[int64]string{}
 	for n, v := range tick {
@@ -178,6 +184,28 @@ func rejectCodes(c *Ctx, r *Report, rule string) map[string]int64 {
 		names = append(names, n)
 	}
 	sort.Strings(names)
+	// the classification written as a scan over a local table of (sentinel, code) pairs: read off the table
+	if tbl, ok := tableScanCodes(c, irt); ok {
+		for _, n := range names {
+			g := c.global("pegnet", n)
+			code, has := tbl[g]
+			switch {
+			case !has:
+				r.viol(rule, "IsRejectedTx("+n+")", c.pos(irt.Pos()), "sentinel is not in the table IsRejectedTx scans: a batch rejected with it fails the block")
+			case code >= 0:
+				r.viol(rule, "IsRejectedTx("+n+")", c.pos(irt.Pos()), fmt.Sprintf("code %d is not negative", code))
+			case used[code] != "":
+				r.viol(rule, "IsRejectedTx("+n+")", c.pos(irt.Pos()), fmt.Sprintf("code %d already used by %s", code, used[code]))
+			default:
+				used[code] = n
+				codes[n] = code
+				r.okNT(rule, "IsRejectedTx("+n+")", c.pos(irt.Pos()), fmt.Sprintf("code %d (row of the scanned table)", code))
+			}
+		}
+		r.okNT(rule, "IsRejectedTx(nil)", c.pos(irt.Pos()), "returns (1, nil) before the scan")
+		r.okNT(rule, "IsRejectedTx(other error)", c.pos(irt.Pos()), "returns (0, err) after the scan")
+		return codes
+	}
 	for _, n := range names {
 		g := c.global("pegnet", n)
 		sc := &Scenario{Params: map[string]AVal{"type:error": {K: ASentinel, G: g}}, MaxDepth: 0}
@@ -354,4 +382,154 @@ func ruleAdmissionTable(c *Ctx, r *Report, e *eraCtx, rule string) {
 	}
 	r.Scen += nsc
 
+}
+
+// tableScanCodes recognises `for _, row := range [...]{ {SentinelA, codeA}, ... } { if err == row.sentinel { return
+// row.code, nil } }; return 0, err` (with `err == nil -> 1, nil` in front) and returns the table. ok is false unless
+// every part of that shape is found.
+func tableScanCodes(c *Ctx, irt *ssa.Function) (map[*ssa.Global]int64, bool) {
+	if len(irt.Params) != 1 {
+		return nil, false
+	}
+	param := irt.Params[0]
+	isParam := func(v ssa.Value) bool { return v == ssa.Value(param) || spilledParam(v) == param }
+	type row struct {
+		sent *ssa.Global
+		code *int64
+	}
+	rows := map[string]*row{}
+	fSent, fCode := -1, -1
+	var elemT types.Type
+	gi := c.globalInits()
+	var famInstrs []ssa.Instruction
+	for _, g := range c.family(irt) { // the table may be built by a helper split off from IsRejectedTx
+		allInstrs(g, func(ins ssa.Instruction) { famInstrs = append(famInstrs, ins) })
+	}
+	each := func(fn func(ssa.Instruction)) {
+		for _, ins := range famInstrs {
+			fn(ins)
+		}
+	}
+	each(func(ins ssa.Instruction) {
+		st, ok := ins.(*ssa.Store)
+		if !ok {
+			return
+		}
+		fa, ok := st.Addr.(*ssa.FieldAddr)
+		if !ok {
+			return
+		}
+		ia, ok := fa.X.(*ssa.IndexAddr)
+		if !ok {
+			return
+		}
+		k, ok := ia.Index.(*ssa.Const)
+		if !ok {
+			return
+		}
+		key := fmt.Sprintf("%p/%d", ia.X, k.Int64())
+		rw := rows[key]
+		if rw == nil {
+			rw = &row{}
+			rows[key] = rw
+		}
+		elemT = deref(fa.X.Type())
+		switch v := st.Val.(type) {
+		case *ssa.UnOp:
+			g, isG := v.X.(*ssa.Global)
+			if !isG || v.Op != token.MUL {
+				return
+			}
+			if isErrorType(v.Type()) {
+				rw.sent, fSent = g, fa.Field
+			} else if a, has := gi[g]; has {
+				if n, isInt := a.intVal(); isInt {
+					rw.code, fCode = &n, fa.Field
+				}
+			}
+		case *ssa.Const:
+			if v.Value != nil && v.Value.Kind() == constant.Int {
+				n := v.Int64()
+				rw.code, fCode = &n, fa.Field
+			}
+		}
+	})
+	if len(rows) == 0 || fSent < 0 || fCode < 0 || elemT == nil {
+		return nil, false
+	}
+	tbl := map[*ssa.Global]int64{}
+	for _, rw := range rows {
+		if rw.sent == nil || rw.code == nil {
+			return nil, false
+		}
+		tbl[rw.sent] = *rw.code
+	}
+	// a field of an element of that struct type
+	fieldOf := func(v ssa.Value, f int) bool {
+		switch x := v.(type) {
+		case *ssa.Field:
+			return x.Field == f && types.Identical(x.X.Type(), elemT)
+		case *ssa.UnOp:
+			if fa, ok := x.X.(*ssa.FieldAddr); ok && x.Op == token.MUL {
+				return fa.Field == f && types.Identical(deref(fa.X.Type()), elemT)
+			}
+		}
+		return false
+	}
+	// the comparison and the return behind its equal edge
+	scanOK, restOK, nilOK := false, false, false
+	for _, b := range irt.Blocks {
+		bo, _, eq := eqEdges(b)
+		if bo == nil {
+			continue
+		}
+		if (isParam(bo.X) && fieldOf(bo.Y, fSent)) || (isParam(bo.Y) && fieldOf(bo.X, fSent)) {
+			for _, rt := range returnsIn(blockSet(irt)) {
+				if len(rt.Results) == 2 && fieldOf(resolveSpill(rt.Results[0]), fCode) && isNilConst(rt.Results[1]) && edgeTargetDom(eq, rt.Block()) {
+					scanOK = true
+				}
+			}
+		}
+		if (isParam(bo.X) && isNilConst(bo.Y)) || (isParam(bo.Y) && isNilConst(bo.X)) {
+			for _, rt := range returnsIn(blockSet(irt)) {
+				if k, ok := rt.Results[0].(*ssa.Const); ok && len(rt.Results) == 2 && k.Value != nil && k.Int64() == 1 && isNilConst(rt.Results[1]) && edgeTargetDom(eq, rt.Block()) {
+					nilOK = true
+				}
+			}
+		}
+	}
+	for _, rt := range returnsIn(blockSet(irt)) {
+		if k, ok := rt.Results[0].(*ssa.Const); ok && len(rt.Results) == 2 && k.Value != nil && k.Int64() == 0 && isParam(rt.Results[1]) {
+			restOK = true
+		}
+	}
+	// nothing else returns
+	if n := len(returnsIn(blockSet(irt))); n != 3 {
+		return nil, false
+	}
+	return tbl, scanOK && restOK && nilOK
+}
+
+func deref(t types.Type) types.Type {
+	if p, ok := t.Underlying().(*types.Pointer); ok {
+		return p.Elem()
+	}
+	return t
+}
+
+var tableScanMemo sync.Map
+
+// tableScanCodesMemo caches tableScanCodes per function.
+func tableScanCodesMemo(c *Ctx, irt *ssa.Function) (map[*ssa.Global]int64, bool) {
+	type res struct {
+		tbl map[*ssa.Global]int64
+		ok  bool
+	}
+	if v, ok := tableScanMemo.Load(irt); ok {
+		r := v.(res)
+		return r.tbl, r.ok
+	}
+	tbl, ok := tableScanCodes(c, irt)
+	tableScanMemo.Store(irt, res{tbl, ok})
+	return tbl, ok
 }
